@@ -97,7 +97,8 @@ Fixpoint set_setstate (st : list (Z * Z * Z)) : outcome dict :=
   match st with
   | [] => Ok []
   | (v, p, ver) :: r =>
-      do n <- Span.net_of_tuple width ver v p;
+      (* IPNetwork((value, prefixlen), version=version): an invalid version raises ValueError, then the tuple checks *)
+      do n <- (if valid_ver ver then Span.net_of_tuple width ver v p else Raise ValueError);
       do d <- set_setstate r; Ok (dfromkeys (n :: d))
   end.
 
